@@ -11,7 +11,11 @@ Ops
 * `build`            index the definitions in insertion order, print tables and lookups
 * `perm p0 p1 ..`    index the definitions in the order `defs[p0], defs[p1], ..`; equal to `build`?
 * `engine`           engine-state tables derived from the index
+* `engcfg <call> ..` the engine state assembled by this sequence of `EngineStateBuilder` calls:
+  `t` (time_engine_start) | `s0` / `s1` (trading_state Disabled / Enabled) |
+  `b N (E NI TOTAL FREE){N}` (one `balances` call with N keyed balances)
 * `exec e0 e1 ..`    `ExecutionBuilder` with an execution added for each listed exchange
+* `execk k0 k1 ..`   the same with the kind of link named per exchange: `m<E>` add_mock, `l<E>` add_live
 -/
 namespace BarterModel.Driver.C11
 open BarterModel.Driver BarterModel.Index
@@ -270,6 +274,105 @@ def txresLines (defs : List Def) (find : Nat → Option Nat) (tab : List (Nat ×
 
 def permute (defs : List Def) (p : List Nat) : Option (List Def) := p.mapM (fun i => defs[i]?)
 
+/-! ### `engcfg`: set-up shapes of the engine-state builder -/
+
+/-- one call on the `EngineStateBuilder` -/
+inductive Call where
+  | time
+  | trading (on : Bool)
+  | balances (bs : List (Nat × Nat × Nat × Nat))
+
+/-- `n` groups `E NI TOTAL FREE` -/
+def parseBals : Nat → List String → Option (List (Nat × Nat × Nat × Nat) × List String)
+  | 0, r => some ([], r)
+  | n + 1, e :: ni :: tot :: free :: r =>
+    match opNats? [e, ni, tot, free] with
+    | some [e, ni, tot, free] =>
+      if e < nExchanges && ni ≤ maxName && tot ≤ maxValue && free ≤ maxValue then
+        (parseBals n r).map (fun (bs, r') => ((e, ni, tot, free) :: bs, r'))
+      else none
+    | _ => none
+  | _, _ => none
+
+def parseCallsFuel : Nat → List String → Option (List Call)
+  | _, [] => some []
+  | 0, _ => none
+  | f + 1, "t" :: r => (parseCallsFuel f r).map (Call.time :: ·)
+  | f + 1, "s0" :: r => (parseCallsFuel f r).map (Call.trading false :: ·)
+  | f + 1, "s1" :: r => (parseCallsFuel f r).map (Call.trading true :: ·)
+  | f + 1, "b" :: n :: r =>
+    match opNats? [n] with
+    | some [n] =>
+      if n ≤ maxName then
+        match parseBals n r with
+        | some (bs, r') => (parseCallsFuel f r').map (Call.balances bs :: ·)
+        | none => none
+      else none
+    | _ => none
+  | _, _ => none
+
+def parseCalls (toks : List String) : Option (List Call) := parseCallsFuel toks.length toks
+
+/-- all keyed balances in the order they were handed to the builder -/
+def suppliedBalances (calls : List Call) : List (Nat × Nat × Nat × Nat) :=
+  calls.flatMap (fun c => match c with | .balances bs => bs | _ => [])
+
+/-- `trading_state`: the last value given, `Disabled` by default -/
+def tradingOf (calls : List Call) : Bool :=
+  calls.foldl (fun acc c => match c with | .trading on => on | _ => acc) false
+
+/-- the builder keeps the balances in a hash map: the LAST value supplied for a key -/
+def balanceOf (bs : List (Nat × Nat × Nat × Nat)) (e ni : Nat) : Option (Nat × Nat) :=
+  (bs.reverse.find? (fun b => b.1 == e && b.2.1 == ni)).map (fun b => (b.2.2.1, b.2.2.2))
+
+def balToks : Option (Nat × Nat) → List String
+  | some (t, f) => [n2s t, n2s f]
+  | none => ["none"]
+
+/-- `engcfg` on the model: `asset_mut` panics on a key the asset table does not hold; otherwise the
+tables of `engine`, the trading state, the balance at every position, the balance found for every
+supplied key through `find_asset_index` + positional read, and the number of entries with a balance -/
+def engcfgLines (defs : List Def) (ii : Indexed) (calls : List Call) : List String :=
+  let tab := assetStates ii
+  let bs := suppliedBalances calls
+  if bs.any (fun b => !(tab.any (fun x => x.1.1 == b.1 && x.1.2 == b.2.1))) then ["panic"] else
+  engineLines defs ii ++
+  [line ["trd", fmtBool (tradingOf calls)]] ++
+  tab.zipIdx.map (fun (((e, ni), _), k) => line (["bal", n2s k, n2s e, n2s ni] ++ balToks (balanceOf bs e ni))) ++
+  bs.zipIdx.map (fun (b, j) =>
+    match (ii.findAssetIndex b.1 b.2.1).bind (fun k => tab[k]?) with
+    | some ((e, ni), _) => line (["balr", n2s j, n2s e, n2s ni] ++ balToks (balanceOf bs e ni))
+    | none => line ["balr", n2s j, "unknown"]) ++
+  [line ["baln", n2s (tab.filter (fun x => (balanceOf bs x.1.1 x.1.2).isSome)).length]]
+
+/-! ### `execk`: execution links of a named kind -/
+
+/-- `m<E>` / `l<E>` -/
+def parseKindTok (t : String) : Option (Bool × Nat) :=
+  match t.toList with
+  | c :: r =>
+    if c == 'm' || c == 'l' then
+      match opNats? [String.ofList r] with
+      | some [e] => if e < nExchanges then some (c == 'm', e) else none
+      | _ => none
+    else none
+  | [] => none
+
+/-- `add_mock` sets up a `MockExchange` for the exchange first: it supports spot instruments only
+and panics otherwise (execution/builder.rs `generate_mock_exchange_instruments`) -/
+def mockPanics (defs : List Def) (e : Nat) : Bool :=
+  defs.any (fun d => d.exchange == e && !(match d.kind with | .spot => true | _ => false))
+
+/-- the adds in order: `none` = the real code panics, `some none` = an add is refused -/
+def execAddKinds (defs : List Def) (ii : Indexed) :
+    List (Nat × Nat) → List (Bool × Nat) → Option (Option (List (Nat × Nat)))
+  | txs, [] => some (some txs)
+  | txs, (mock, e) :: es =>
+    if mock && mockPanics defs e then none else
+    match execAdd ii txs e with
+    | none => some none
+    | some txs' => execAddKinds defs ii txs' es
+
 def model : Drv (List Def) where
   init := []
   step defs toks :=
@@ -297,6 +400,13 @@ def model : Drv (List Def) where
       match build defs with
       | some ii => (defs, engineLines defs ii)
       | none => (defs, ["panic"])
+    | "engcfg" :: r =>
+      match parseCalls r with
+      | some calls =>
+        match build defs with
+        | some ii => (defs, engcfgLines defs ii calls)
+        | none => (defs, ["panic"])
+      | none => (defs, ["bad-op"])
     | "exec" :: es =>
       match (opNats? es).filter (·.all (· < nExchanges)) with
       | some es =>
@@ -309,6 +419,23 @@ def model : Drv (List Def) where
             | none => (defs, ["panic"])
             | some tab =>
               (defs, tab.zipIdx.map (fun ((e, has), k) => line ["tx", n2s k, n2s e, fmtBool has]) ++
+                txresLines defs ii.findExchangeIndex tab)
+        | none => (defs, ["panic"])
+      | none => (defs, ["bad-op"])
+    | "execk" :: ks =>
+      match ks.mapM parseKindTok with
+      | some ks =>
+        match build defs with
+        | some ii =>
+          match execAddKinds defs ii [] ks with
+          | none => (defs, ["panic"])
+          | some none => (defs, ["exec err"])
+          | some (some txs) =>
+            match execBuild ii txs with
+            | none => (defs, ["panic"])
+            | some tab =>
+              (defs, [line ["nfut", n2s (ks.filter (·.1)).length, n2s ks.length]] ++
+                tab.zipIdx.map (fun ((e, has), k) => line ["tx", n2s k, n2s e, fmtBool has]) ++
                 txresLines defs ii.findExchangeIndex tab)
         | none => (defs, ["panic"])
       | none => (defs, ["bad-op"])
@@ -339,6 +466,22 @@ def specBuildLines (defs : List Def) : List String :=
 def specEngineLines (defs : List Def) : List String :=
   if decide (WFInstruments defs) then resLines defs some "eres" ++ resLines defs some "eresm" else []
 
+/-- `engcfg` as the property fixes it: whatever the order of the builder calls, the tables still
+resolve (`eres` / `eresm`, under the hypotheses of `engine`), the trading state is the last one given
+(`Disabled` by default), and - assets well-formed, every key an exchange-asset of the collection - the
+entry with the index of asset `(E, NI)` holds exactly the balance supplied (last) for `(E, NI)`, and no
+other entry holds one. Silent when a key is outside the collection (the builder panics there). -/
+def specEngcfgLines (defs : List Def) (calls : List Call) : List String :=
+  let bs := suppliedBalances calls
+  let as := specAssets defs
+  if bs.any (fun b => !(as.any (fun a => a.exchange == b.1 && a.asset.nameInternal == b.2.1))) then [] else
+  specEngineLines defs ++
+  [line ["trd", fmtBool (tradingOf calls)]] ++
+  (if decide (WFAssets defs) then
+    bs.zipIdx.map (fun (b, j) => line (["balr", n2s j, n2s b.1, n2s b.2.1] ++ balToks (balanceOf bs b.1 b.2.1))) ++
+    [line ["baln", n2s (specDistinct (bs.map (fun b => (b.1, b.2.1)))).length]]
+  else [])
+
 def spec : Drv (List Def) where
   init := []
   step defs toks :=
@@ -361,11 +504,28 @@ def spec : Drv (List Def) where
         | none => (defs, ["bad-op"])
       | none => (defs, ["bad-op"])
     | ["engine"] => (defs, specEngineLines defs)
+    | "engcfg" :: r =>
+      match parseCalls r with
+      | some calls => (defs, specEngcfgLines defs calls)
+      | none => (defs, ["bad-op"])
     | "exec" :: es =>
       match (opNats? es).filter (·.all (· < nExchanges)) with
       | some es =>
         let known := specExchanges defs
         if es.all (· ∈ known) && decide (specDistinct es = es) then
+          (defs, (defs.zipIdx).map (fun (d, i) =>
+            line ["txres", n2s i, n2s d.exchange, fmtBool (decide (d.exchange ∈ es))]))
+        else (defs, [])
+      | none => (defs, ["bad-op"])
+    | "execk" :: ks =>
+      match ks.mapM parseKindTok with
+      | some ks =>
+        -- the kind of link does not matter to the table: a transmitter exactly where one was added
+        -- (silent where the real code refuses or - a mock for a non-spot exchange - panics)
+        let es := ks.map (·.2)
+        let known := specExchanges defs
+        if es.all (· ∈ known) && decide (specDistinct es = es) &&
+            !(ks.any (fun k => k.1 && mockPanics defs k.2)) then
           (defs, (defs.zipIdx).map (fun (d, i) =>
             line ["txres", n2s i, n2s d.exchange, fmtBool (decide (d.exchange ∈ es))]))
         else (defs, [])
